@@ -4,24 +4,23 @@
 (*    [d, [ [count, text, reparsed, ts.seconds, ts.nanoseconds, ts-round-trip] | [] (count does not fit) ... ]]          *)
 (* The harness reads the day numbers from this very file, executes the real conversions and writes rows   *)
 (* of the same shape; the check compares the two files line by line for equality.                        *)
-(* IOEnv: OUT file, MODE "range" (LO..HI) | "bounds" (year boundaries of YLO..YHI, month boundaries      *)
-(* when MONTHS = 1, each -2..+2 days) | "sample" (N seeded days of LO..HI), URSET "all" | "core".        *)
+(* IOEnv: OUT file, MODE "range" (LO..HI) | "years" (YLO..YHI) | "seconds" | "limits" | "bounds" (year boundaries of YLO..YHI, month boundaries      *)
+(* when MONTHS = 1, each -2..+2 days) | "sample" (N seeded days of the years YLO..YHI), URSET "all" | "core".        *)
 EXTENDS Chrono, Json, IOUtils
 
 VARIABLE dummy
 
-Mode == IOEnv.MODE
 EnvInt(s) == atoi(s)      \* Integer.parseInt: accepts a leading minus
 
 URAll  == << <<"d", "i64">>, <<"d", "i32">>, <<"h", "i64">>, <<"h", "i32">>, <<"min", "i64">>, <<"min", "i32">>,
              <<"s", "i64">>, <<"s", "i32">>, <<"ms", "i64">>, <<"us", "i64">>, <<"ns", "i64">> >>
 URCore == << <<"d", "i64">>, <<"d", "i32">>, <<"s", "i64">>, <<"ms", "i64">> >>
-UR == IF IOEnv.URSET = "core" THEN URCore ELSE URAll
 
 PerDay(u) == CASE u = "d" -> <<>> [] u = "h" -> <<24>> [] u = "min" -> <<1440>> [] u = "s" -> <<86400>>
                [] u = "ms" -> <<86400, 1000>> [] u = "us" -> <<86400, 1000, 1000>> [] OTHER -> <<86400, 1000, 1000, 1000>>
 
-DayRow(d) ==
+\* (the environment is read once per table, never per row: IOEnv builds a record of the whole environment on every use)
+DayRow(d, UR) ==
   LET civ  == CivilFromDays(d)
       civB == [y |-> FromInt(civ.y), m |-> civ.m, d |-> civ.d]
       T0 == DateTimeStr(civB, 0, Zero, 0)
@@ -36,29 +35,77 @@ DayRow(d) ==
                       <<cs, (CASE fd = 0 -> T0 [] fd = 3 -> T3 [] fd = 6 -> T6 [] OTHER -> T9), v, sec, "0", v>>
   IN <<d, [i \in 1..Len(UR) |-> Obs(UR[i])]>>
 
-\* "range"
-RangeRows == LET lo == EnvInt(IOEnv.LO) hi == EnvInt(IOEnv.HI) IN [i \in 1..(hi - lo + 1) |-> DayRow(lo + i - 1)]
+\* "range": days LO..HI;  "years": every day of the years YLO..YHI
+RangeRowsP(lo, hi, ur) == [i \in 1..(hi - lo + 1) |-> DayRow(lo + i - 1, ur)]
+RangeRows(ur) == RangeRowsP(EnvInt(IOEnv.LO), EnvInt(IOEnv.HI), ur)
+YearRows(ur)  == RangeRowsP(DaysFromCivil(EnvInt(IOEnv.YLO), 1, 1), DaysFromCivil(EnvInt(IOEnv.YHI) + 1, 1, 1) - 1, ur)
 
 \* "bounds": for every year y of YLO..YHI the days -2..+2 around y-01-01 (and around every y-mm-01 when MONTHS = 1)
-BoundRows ==
-  LET ylo == EnvInt(IOEnv.YLO) yhi == EnvInt(IOEnv.YHI)
-      ms  == IF IOEnv.MONTHS = "1" THEN 12 ELSE 1
-      n   == (yhi - ylo + 1) * ms * 5
+BoundRowsP(ylo, yhi, ms, ur) ==
+  LET n   == (yhi - ylo + 1) * ms * 5
       Day(i) == LET j == i - 1
                     y == ylo + (j \div (ms * 5))
                     m == 1 + ((j \div 5) % ms)
                 IN DaysFromCivil(y, m, 1) + ((j % 5) - 2)
-  IN [i \in 1..n |-> DayRow(Day(i))]
+  IN [i \in 1..n |-> DayRow(Day(i), ur)]
+BoundRows(ur) == BoundRowsP(EnvInt(IOEnv.YLO), EnvInt(IOEnv.YHI), IF IOEnv.MONTHS = "1" THEN 12 ELSE 1, ur)
 
 \* "sample": N days of LO..HI from a small congruential scheme seeded by SEED (products stay below 2^31)
-SampleRows ==
-  LET lo == EnvInt(IOEnv.LO) hi == EnvInt(IOEnv.HI) n == atoi(IOEnv.N) seed == atoi(IOEnv.SEED) % 10007
-      span == hi - lo + 1
+SampleRowsP(lo, hi, n, seed, ur) ==
+  LET span == hi - lo + 1
       blocks == (span \div 1000) + 1
       Day(i) == lo + ((((((i * 9973) + (seed * 7)) % blocks) * 1000) + (((i * 7919) + seed) % 1000)) % span)
-  IN [i \in 1..n |-> DayRow(Day(i))]
+  IN [i \in 1..n |-> DayRow(Day(i), ur)]
+SampleRows(ur) == SampleRowsP(DaysFromCivil(EnvInt(IOEnv.YLO), 1, 1), DaysFromCivil(EnvInt(IOEnv.YHI) + 1, 1, 1) - 1,
+                              atoi(IOEnv.N), atoi(IOEnv.SEED) % 10007, ur)
 
-Rows == CASE Mode = "range" -> RangeRows [] Mode = "bounds" -> BoundRows [] OTHER -> SampleRows
+\* "seconds": every second SLO..SHI of the DAYIDX-th selected day, for the units that can hold a second
+SelectedDays ==
+  << DaysFromCivil(1969, 12, 31), DaysFromCivil(2024, 2, 29), DaysFromCivil(1970, 1, 1), DaysFromCivil(2000, 2, 29),
+     DaysFromCivil(1900, 2, 28), DaysFromCivil(1900, 3, 1), DaysFromCivil(2100, 2, 28), DaysFromCivil(1600, 2, 29),
+     DaysFromCivil(0, 1, 1), DaysFromCivil(-1, 12, 31), DaysFromCivil(9999, 12, 31), DaysFromCivil(10000, 1, 1),
+     DaysFromCivil(2262, 4, 11), DaysFromCivil(1677, 9, 21), DaysFromCivil(2038, 1, 19), DaysFromCivil(1901, 12, 13),
+     DaysFromCivil(-400, 2, 29), DaysFromCivil(2400, 2, 29) >>
+URSec == << <<"s", "i64">>, <<"s", "i32">>, <<"ms", "i64">>, <<"us", "i64">>, <<"ns", "i64">> >>
+PerSecond(u) == CASE u = "s" -> <<>> [] u = "ms" -> <<1000>> [] u = "us" -> <<1000, 1000>> [] OTHER -> <<1000, 1000, 1000>>
+SecondRowsP(d, lo, hi) ==
+  LET civ == CivilFromDays(d)
+      civB == [y |-> FromInt(civ.y), m |-> civ.m, d |-> civ.d]
+      base == MulSmall(FromInt(d), 86400)
+      Row(sod) ==
+        LET secs == AddSmall(base, sod)
+            sec == ToDec(secs)
+            Obs(ur) == LET c == MulChain(secs, PerSecond(ur[1])) IN
+                       IF ~Fits(c, ur[2]) THEN <<>>
+                       ELSE LET cs == ToDec(c) v == "V:" \o cs IN
+                            <<cs, DateTimeStr(civB, sod, Zero, FracDigits(ur[1])), v, sec, "0", v>>
+        IN <<d, sod, [i \in 1..Len(URSec) |-> Obs(URSec[i])]>>
+  IN [i \in 1..(hi - lo + 1) |-> Row(lo + i - 1)]
+SecondRows == SecondRowsP(SelectedDays[atoi(IOEnv.DAYIDX)], atoi(IOEnv.SLO), atoi(IOEnv.SHI))
+
+\* "limits": requests for the list mode of the harness: neighbourhoods of min / max / zero of every printable
+\* (unit, representation) for time points and durations, time_t, and the first / last tick of remarkable years
+PrintableUR == << <<"ns", "i64">>, <<"us", "i64">>, <<"ms", "i64">>, <<"s", "i64">>, <<"min", "i64">>, <<"h", "i64">>, <<"d", "i64">>,
+                  <<"s", "i32">>, <<"min", "i32">>, <<"h", "i32">>, <<"d", "i32">> >>     \* 32-bit: coarse units only (quantifier of C14)
+Around(x) == {AddSmall(x, k) : k \in -3..3}
+YearStarts == {-10000, -9999, -1000, -999, -100, -99, -10, -9, -1, 0, 1, 1000, 1582, 1583, 1970, 9999, 10000, 99999, 100000, 1000000}
+TicksPerDayChain(u) ==
+  CASE u = "ns" -> <<86400, 1000, 1000, 1000>> [] u = "us" -> <<86400, 1000, 1000>> [] u = "ms" -> <<86400, 1000>>
+    [] u = "s" -> <<86400>> [] u = "min" -> <<1440>> [] u = "h" -> <<24>> [] OTHER -> <<>>
+LimitCounts(ur) ==
+  LET yrs == UNION {Around(MulChain(FromInt(DaysFromCivil(y, 1, 1)), TicksPerDayChain(ur[1]))) : y \in YearStarts}
+      \* 16-digit years: where the 32 byte print buffer ends
+      huge == UNION {Around(MulChain(DaysFromCivilBig(Mk(sg, MShiftDec(<<1>>, e)), 1, 1), TicksPerDayChain(ur[1]))) : e \in {14, 15, 16}, sg \in {TRUE, FALSE}}
+  IN {c \in Around(RepMin(ur[2])) \cup Around(RepMax(ur[2])) \cup Around(Zero) \cup yrs \cup huge : Fits(c, ur[2])}
+LimitRows ==
+  LET Req(k, ur) == {[k |-> k, u |-> ur[1], r |-> ur[2], c |-> ToDec(c)] : c \in LimitCounts(ur)}
+      all == UNION {Req("tp", PrintableUR[i]) \cup Req("dur", PrintableUR[i]) : i \in 1..Len(PrintableUR)} \cup Req("time_t", <<"s", "i64">>)
+  IN SetToSeq(all)
+
+RowsFor(mode, ur) ==
+  CASE mode = "range" -> RangeRows(ur) [] mode = "years" -> YearRows(ur) [] mode = "bounds" -> BoundRows(ur) [] mode = "seconds" -> SecondRows
+    [] mode = "limits" -> LimitRows [] OTHER -> SampleRows(ur)
+Rows == RowsFor(IOEnv.MODE, IF IOEnv.URSET = "core" THEN URCore ELSE URAll)
 
 ASSUME ndJsonSerialize(IOEnv.OUT, Rows)
 ASSUME PrintT(<<"WROTE", ToJson([n |-> Len(Rows)])>>)
